@@ -7,6 +7,7 @@
 (* clients and where the silent steps (disconnect processing, expiry) fall.    *)
 EXTENDS Bus, Json, IOUtils
 
+CONSTANT OomMode     \* TRUE for traces of the in-process fault-injection harness (ops carry an "oom" flag)
 Log == ndJsonDeserialize(IOEnv.TRACE)
 
 VARIABLES l,      \* index of the current log line
@@ -132,7 +133,16 @@ AnnouncedUniques == {m.args[1].v : m \in {x \in AllObs : /\ x.mem = S_NameOwnerC
                                                           /\ x.args[1].v[1] = cColon}}
 HelloNames(op) == IF op.got # <<>> THEN {op.got} ELSE AnnouncedUniques \cup {<<>>}
 
-Apply(s, op) ==
+\* internal state reported by the in-process harness (registry queues, primary's allow_replacement, rule counts)
+DumpOK(op) ==
+  /\ \A i \in 1..Len(op.names) :
+        LET d == op.names[i]  q == QOf(queue, d.n) IN
+        /\ d.q = [j \in 1..Len(q) |-> q[j].s]
+        /\ (q # <<>> => d.ar = q[1].ar)
+  /\ \A r \in Slot : op.nrules[r] = Len(rules[r])
+Dump(op) == DumpOK(op) /\ out' = <<>> /\ UNCHANGED <<cfg, cst, dying, uid, uname, everNames, queue, rules, pend, mon>>
+
+Apply0(s, op) ==
   IF cst[s] = "monitor" /\ op.k # "connect" THEN Plain(MonitorSpeaks(s)) ELSE
   CASE op.k = "connect" -> Plain(Connect(s, op.uid))
     [] op.k = "monitor" -> \E order \in [1..Cardinality(NamesOf(queue, s)) -> NamesOf(queue, s)] :
@@ -149,6 +159,16 @@ Apply(s, op) ==
                         \/ Dev("LocalReplyUnstamped", Dev_LocalReplyUnstamped(s, OpMsg(op), op.fsnd))
     [] op.k = "close" -> Plain(PingAndClose(s, op.ser))
     [] op.k = "big" -> Plain(Corrupt(s))
+    [] op.k = "dump" -> Plain(Dump(op))
+
+\* with fault injection a request either runs normally or is aborted as a whole
+Apply(s, op) ==
+  IF OomMode /\ op.k # "dump"
+  THEN \/ Apply0(s, op)
+       \/ op.oom /\ Plain(OomAbort(s, op.ser))
+       \/ op.oom /\ op.k = "hello" /\ Dev("OomHelloHalfDone", Dev_OomHelloHalfDone(s, op.ser, op.got2))
+       \/ op.oom /\ op.k \in {"req", "rel"} /\ Dev("OomKeepsQueueChange", Dev_OomKeepsQueueChange(s, op.ser, op.k, op.n, IF op.k = "req" THEN op.f ELSE 0))
+  ELSE Apply0(s, op)
 
 \* Partial-order reduction (sound): a barrier Ping changes nothing and its answer does not depend on the state,
 \* so if the next thing a client read is the answer to its own next Ping, serving that Ping now loses nothing.
